@@ -37,7 +37,6 @@ PROPS = {
     "C06": dict(engine=SYS, variants=["A", "B"], quick=360, thorough=9000),
     "C07": dict(engine=SYS, variants=["A", "B"], quick=300, thorough=8000),
     "C08": dict(engine=SYS, variants=["A", "B"], quick=300, thorough=8000),
-    "C09": dict(engine=SYS, variants=["A", "C"], quick=200, thorough=4000),
     "C10": dict(engine=SYS, variants=["A", "C"], quick=360, thorough=9000),
     "C11": dict(engine=SYS, variants=["A", "B"], quick=360, thorough=9000),
     "C12": dict(engine=SYS, variants=["A", "C"], quick=360, thorough=9000),
@@ -47,14 +46,65 @@ PROPS = {
     "C16": dict(engine=SYS, variants=["A"], quick=300, thorough=8000),
     "C17": dict(engine=SYS, variants=["A", "B"], quick=360, thorough=9000),
     "C18": dict(engine=SYS, variants=["A", "B"], quick=360, thorough=9000),
-    "C28": dict(engine=SYS, variants=["A", "C"], quick=300, thorough=8000),
-    "C29": dict(engine=SYS, variants=["A"], quick=60, thorough=1500),
     "C31": dict(engine=SYS, variants=["A"], quick=240, thorough=6000),
-    "C34": dict(engine=SYS, variants=["A", "C"], quick=200, thorough=4000),
-    "C36": dict(engine=SYS, variants=["A", "B"], quick=300, thorough=8000),
-    "C37": dict(engine=SYS, variants=["B", "C"], quick=300, thorough=8000),
     "C38": dict(engine=SYS, variants=["A"], quick=300, thorough=8000),
 }
+
+
+# Which oracle families ("native" properties) count as a violation of each claimed property.  A run
+# made for property X evaluates every oracle; a failure of an oracle that says nothing about X is
+# reported as a note (the check of that other property is the one that must fail), not as an alarm.
+# Panics / debug assertions / crashes inside mmtk-core have no native property and always count.
+RELATED = {
+    "C01": {"C01"},
+    "C02": {"C02"},
+    "C03": {"C03"},
+    "C04": {"C04"},
+    "C05": {"C05", "C01"},
+    "C06": {"C06"},
+    "C07": {"C07"},
+    "C08": {"C08"},
+    "C09": {"C09"},
+    "C10": {"C10"},
+    "C11": {"C11"},
+    "C12": {"C12", "C01"},
+    "C13": {"C13"},
+    "C14": {"C14"},
+    "C15": {"C15"},
+    "C16": {"C16", "C14"},
+    "C17": {"C17", "C01"},
+    "C18": {"C18"},
+    "C28": {"C28", "C02"},
+    "C29": {"C29", "C31"},
+    "C31": {"C31"},
+    "C34": {"C34", "C01", "C02"},
+    "C36": {"C36", "C01", "C02"},
+    "C37": {"C37", "C01"},
+    "C38": {"C38"},
+}
+
+
+# Properties with schedule/fault content for which no check is claimed (yet), with the reason.
+UNCLAIMED = {
+    "C09": "no property-specific oracle built yet (used-bytes floor after exhaustive GC)",
+    "C19": "component simulation of BlockPool not built",
+    "C20": "component simulation of concurrent side-metadata access not built",
+    "C21": "bulk metadata operations: component simulation not built",
+    "C23": "component simulation of concurrent header-metadata access not built",
+    "C26": "free-list histories have no schedule or fault content; component simulation not built",
+    "C27": "grow_freelist under mmap faults: component simulation not built",
+    "C28": "no property-specific oracle built yet (page grant/release event history)",
+    "C29": "no property-specific oracle built yet (Map32 region-map introspection)",
+    "C30": "component simulation of the mmapper (concurrent ensure_mapped + mmap faults) not built",
+    "C34": "no property-specific oracle built yet (line mark introspection)",
+    "C36": "no property-specific oracle built yet (treadmill set introspection)",
+    "C37": "no property-specific oracle built yet (Compressor packing order)",
+}
+
+
+def counts_for(prop, o):
+    n = o.get("native_property") or ""
+    return n == "" or n in RELATED.get(prop, {prop})
 
 
 def load_known():
@@ -69,10 +119,9 @@ def load_known():
 
 
 def known_match(o, known, prop):
-    """Return the known-finding entry matching this violation outcome, or None."""
+    """Return the known-finding entry matching this violation outcome, or None.  (`properties` of an
+    entry lists the checks that always print it; a run of any check may hit it.)"""
     for k in known:
-        if k.get("properties") and prop not in k["properties"]:
-            continue
         m = k["match"]
         if "plan" in m and o.get("plan") not in m["plan"]:
             continue
@@ -212,15 +261,23 @@ def do_check(prop, tier, base_seed):
     herr = [o for o in results if o.get("status") == "harness-error"]
     known_hits = {}
     unknown = []
+    others = {}
     for o in viols:
         k = known_match(o, known, prop)
-        if k:
+        if k and (counts_for(prop, o) or prop in (k.get("properties") or [])):
             known_hits[k["id"]] = known_hits.get(k["id"], 0) + 1
-        else:
+        elif counts_for(prop, o):
             unknown.append(o)
-    for kid, n in sorted(known_hits.items()):
-        k = [x for x in known if x["id"] == kid][0]
-        print("KNOWN-FINDING: property=%s %s (%s; hit in %d runs)" % (prop, k["what"], kid, n))
+        else:
+            key = (o.get("native_property"), o.get("class"))
+            others.setdefault(key, []).append((o["_variant"], o["_seed"]))
+    for (n, c), runs in sorted(others.items()):
+        print("note: %d run(s) hit an oracle of another property (%s, class %s), e.g. variant %s seed %d; "
+              "that is decided by the check of %s" % (len(runs), n, c, runs[0][0], runs[0][1], n))
+    for k in known:
+        n = known_hits.get(k["id"], 0)
+        if n or prop in (k.get("properties") or []):
+            print("KNOWN-FINDING: property=%s %s (%s; hit in %d runs of this batch)" % (prop, k["what"], k["id"], n))
     rc = 0
     replay_path = None
     if unknown:
